@@ -1,5 +1,6 @@
 """C13 - no reply can make a query reserve unbounded memory."""
 from valve_common import *
+from quake_common import quake_specs, quake_case
 
 ID = "C13"
 PROPS_FILE = "C13"
@@ -49,6 +50,12 @@ def gen_cases(tier, rng):
             kind, evs = mutate(base, r)
             cases.append({"id": "mut/%d/%d" % (s["seed"], j), "hex": assemble(s["settings"], evs, s["bz"]),
                           "meta": {"stream": "mutations", "retries": 0, "n": len(evs)}})
+    qs = quake_specs([(rng.next() >> 1, 1 + (i % 3)) for i in range(120 if tier == "quick" else 3000)])
+    for q in qs:
+        for j in range(6):
+            kind, evs = mutate([q["dg"]], r)
+            cases.append({"id": "qmut/%d/%d" % (q["seed"], j), "hex": quake_case(27960, q["ver"], None, evs),
+                          "meta": {"stream": "quake-mutations", "retries": 0, "n": len(evs)}})
     return cases
 
 
@@ -83,4 +90,4 @@ def extra_runs(tier, rng, ctx):
         a = parse_alloc(i.split("\t#", 1)[1]) if i and "\t#" in i else None
         if a:
             worst = max(worst, a[0])
-    return [], {"largest_single_allocation_observed": worst, "covered_entry_points": ["valve::query"]}
+    return [], {"largest_single_allocation_observed": worst, "covered_entry_points": ["valve::query", "quake one/two/three"]}
